@@ -59,6 +59,7 @@ OkRows == [kind : {"ok"}, ts : Slots, iface : Ifaces, key : Keys, val : Vals]
 BadRows(s) == [kind : BadKinds \cup (IF s.iface THEN IfaceKinds ELSE {}), ts : Slots,
                iface : Ifaces, key : Keys, val : Vals]
 Rows(s) == OkRows \cup BadRows(s)
+AllRows == OkRows \cup [kind : BadKinds \cup IfaceKinds, ts : Slots, iface : Ifaces, key : Keys, val : Vals]
 (* the rows Next chooses from (bounded model runs substitute a subset of Rows) *)
 Candidates(s) == Rows(s)
 
@@ -85,20 +86,20 @@ Init == /\ schema \in Schemas
         /\ act = [name |-> "Init"]
 
 (* an unusable row: counted, nothing else happens *)
-Skip(r) == /\ r.kind # "ok"
+Skip(r) == /\ ~err /\ ~eof /\ r \in Candidates(schema) /\ r.kind # "ok"
            /\ read' = read + 1 /\ skipped' = skipped + 1
            /\ UNCHANGED <<schema, cur, pending, written, imported, err, eof, accepted>>
            /\ act' = [name |-> "Skip", row |-> r]
 
 (* a usable row whose time lies before the current one: the import is rejected *)
-Regress(r) == /\ r.kind = "ok" /\ cur # 0 /\ r.ts < cur
+Regress(r) == /\ ~err /\ ~eof /\ r \in Candidates(schema) /\ r.kind = "ok" /\ cur # 0 /\ r.ts < cur
               /\ read' = read + 1
               /\ err' = TRUE
               /\ UNCHANGED <<schema, cur, pending, written, imported, skipped, eof, accepted>>
               /\ act' = [name |-> "Regress", row |-> r]
 
 (* a usable row in order: blocks older than its time are written out, the row is added *)
-Accept(r) == /\ r.kind = "ok" /\ (cur = 0 \/ r.ts >= cur)
+Accept(r) == /\ ~err /\ ~eof /\ r \in Candidates(schema) /\ r.kind = "ok" /\ (cur = 0 \/ r.ts >= cur)
              /\ LET old == {b \in DOMAIN pending : b[2] < r.ts}
                     keep == DOMAIN pending \ old
                 IN /\ written' = Join(written, Restrict(pending, old))
@@ -109,7 +110,7 @@ Accept(r) == /\ r.kind = "ok" /\ (cur = 0 \/ r.ts >= cur)
              /\ UNCHANGED <<schema, skipped, err, eof>>
              /\ act' = [name |-> "Accept", row |-> r]
 
-Feed(r) == ~err /\ ~eof /\ (Skip(r) \/ Regress(r) \/ Accept(r))
+Feed(r) == Skip(r) \/ Regress(r) \/ Accept(r)
 
 (* end of input: everything still pending is written *)
 Eof == /\ ~err /\ ~eof
@@ -117,7 +118,7 @@ Eof == /\ ~err /\ ~eof
        /\ UNCHANGED <<schema, cur, read, imported, skipped, err, accepted>>
        /\ act' = [name |-> "Eof"]
 
-Next == (\E r \in Candidates(schema) : Feed(r)) \/ Eof
+Next == (\E r \in AllRows : Skip(r) \/ Regress(r) \/ Accept(r)) \/ Eof
 
 Spec == Init /\ [][Next]_vars
 
